@@ -35,24 +35,27 @@ type FuncAn struct {
 	EntryNote  []string // rendered entry facts
 	CountNotes []string // paired-count lemmas used
 
-	elemLenMemo map[ssa.Value]*Lin
-	paramElem   map[*ssa.Parameter]Lin // element length of a slice-of-slices parameter, established at every call site
-	inited      map[*Atom]bool
-	inited2     map[*Atom]bool
-	provers     map[*State]*prover
-	atomLoad    map[*Atom]*ssa.UnOp                // load atoms (and lengths of loads) -> the representative load
-	loadSnap    map[*ssa.UnOp]map[string]ssa.Value // struct-typed load -> locations available at the load
-	callSnap    map[*ssa.Call]map[string]ssa.Value // static call -> locations available right before the call
-	callVer     map[*ssa.Call]map[string]string    // static call -> synthetic versions of locations whose content is unknown
-	prods, quos []opRec
-	rems        []remRec // x % k for constant k: x == k*q + r
-	projAtom    map[*Atom]projCoef
-	capMemo     map[ssa.Value]Lin
-	atomVal     map[*Atom]ssa.Value // atoms of SSA values
-	phiMulBusy  map[*ssa.Phi]bool
-	memPhis     map[*ssa.BasicBlock][]memPhi
-	capAtomOf   map[*Atom]ssa.Value  // capacity atoms -> the slice value
-	fieldAtomOf map[*Atom]*ssa.Field // atoms of struct-value fields
+	elemLenMemo    map[ssa.Value]*Lin
+	paramElem      map[*ssa.Parameter]Lin // element length of a slice-of-slices parameter, established at every call site
+	inited         map[*Atom]bool
+	inited2        map[*Atom]bool
+	provers        map[*State]*prover
+	atomLoad       map[*Atom]*ssa.UnOp                // load atoms (and lengths of loads) -> the representative load
+	loadSnap       map[*ssa.UnOp]map[string]ssa.Value // struct-typed load -> locations available at the load
+	callSnap       map[*ssa.Call]map[string]ssa.Value // static call -> locations available right before the call
+	callVer        map[*ssa.Call]map[string]string    // static call -> synthetic versions of locations whose content is unknown
+	prods, quos    []opRec
+	rems           []remRec // x % k for constant k: x == k*q + r
+	projAtom       map[*Atom]projCoef
+	capMemo        map[ssa.Value]Lin
+	atomVal        map[*Atom]ssa.Value // atoms of SSA values
+	phiMulBusy     map[*ssa.Phi]bool
+	pureCanon      map[*ssa.Call]*ssa.Call
+	lenAtomOf      map[*Atom]ssa.Value
+	hoistUntracked string // set by a failed hoist whose call site lacked the fact because of an untracked value
+	memPhis        map[*ssa.BasicBlock][]memPhi
+	capAtomOf      map[*Atom]ssa.Value  // capacity atoms -> the slice value
+	fieldAtomOf    map[*Atom]*ssa.Field // atoms of struct-value fields
 }
 
 type remRec struct {
@@ -156,10 +159,105 @@ func (a *FuncAn) cv(v ssa.Value) ssa.Value {
 					continue
 				}
 			}
+		case *ssa.Call:
+			// a later call of a pure function with the same arguments is the earlier one (congruence)
+			if r, ok := a.pureCanon[x]; ok && r != x {
+				v = r
+				continue
+			}
 		}
 		break
 	}
 	return v
+}
+
+// purify: calls of pure module functions (no memory access at all: value parameters of basic type in, arithmetic, calls
+// of other pure functions and of math/bits) with identical canonical arguments denote one value; a call dominated by an
+// earlier identical call is canonicalised to it.
+func (a *FuncAn) purify() {
+	a.pureCanon = map[*ssa.Call]*ssa.Call{}
+	type key struct {
+		f    *ssa.Function
+		args string
+	}
+	first := map[key][]*ssa.Call{}
+	for _, b := range a.rpo {
+		for _, ins := range b.Instrs {
+			c, ok := ins.(*ssa.Call)
+			if !ok {
+				continue
+			}
+			f := c.Call.StaticCallee()
+			if f == nil || c.Call.IsInvoke() || !a.E.pureFunc(f, 0) {
+				continue
+			}
+			ks := ""
+			for _, arg := range c.Call.Args {
+				ks += fmt.Sprintf("%p,", a.cv(arg))
+			}
+			k := key{f, ks}
+			done := false
+			for _, prev := range first[k] {
+				if prev.Block() == b || prev.Block().Dominates(b) {
+					a.pureCanon[c] = prev
+					done = true
+					break
+				}
+			}
+			if !done {
+				first[k] = append(first[k], c)
+			}
+		}
+	}
+}
+
+// pureFunc: f reads and writes no memory and its result is a function of its arguments.
+func (e *Engine) pureFunc(f *ssa.Function, depth int) bool {
+	if e.pureMemo == nil {
+		e.pureMemo = map[*ssa.Function]int{}
+	}
+	if v := e.pureMemo[f]; v != 0 {
+		return v == 1
+	}
+	if depth > 3 || f.Blocks == nil || len(f.FreeVars) > 0 {
+		return false
+	}
+	e.pureMemo[f] = 2 // pessimistic while computing (recursion)
+	basic := func(t types.Type) bool {
+		_, ok := t.Underlying().(*types.Basic)
+		return ok
+	}
+	for _, p := range f.Params {
+		if !basic(p.Type()) {
+			return false
+		}
+	}
+	for _, b := range f.Blocks {
+		for _, ins := range b.Instrs {
+			switch x := ins.(type) {
+			case *ssa.BinOp, *ssa.Convert, *ssa.ChangeType, *ssa.Phi, *ssa.If, *ssa.Jump, *ssa.Return, *ssa.DebugRef:
+			case *ssa.UnOp:
+				if x.Op == token.MUL || x.Op == token.ARROW {
+					return false
+				}
+			case *ssa.Call:
+				cal := x.Call.StaticCallee()
+				if cal == nil || x.Call.IsInvoke() {
+					return false
+				}
+				if cal.Pkg != nil && cal.Pkg.Pkg.Path() == "math/bits" {
+					continue
+				}
+				if !e.InModule(cal) || !e.pureFunc(cal, depth+1) {
+					return false
+				}
+			default:
+				return false
+			}
+		}
+	}
+	e.pureMemo[f] = 1
+	return true
 }
 
 func (a *FuncAn) valueAtom(v ssa.Value, nonneg bool) *Atom {
@@ -771,6 +869,10 @@ func arrayLen(t types.Type) (int64, bool) {
 
 func (a *FuncAn) lenAtom(v ssa.Value) Lin {
 	at := a.atom("len:"+v.Name()+fmt.Sprintf("%p", v), "len("+a.valName(v)+")", true)
+	if a.lenAtomOf == nil {
+		a.lenAtomOf = map[*Atom]ssa.Value{}
+	}
+	a.lenAtomOf[at] = v
 	if ins, ok := v.(ssa.Instruction); ok {
 		a.atomDef[at] = ins.Block()
 	}
